@@ -8,7 +8,7 @@ type T = u32;
 
 pub fn mk_table<const N: usize>(items: usize, deleted: usize, h: &[u64; K], kind: InvKind) -> (HashTable<T>, St<N>) {
     let mut t: HashTable<T> = HashTable::with_capacity(capreq(N));
-    let st = fill::<T, _, N>(hv::raw_of_table(&mut t), Spec { items, deleted, kind, h, distinct: false, id_is_slot: false, layout: None });
+    let st = fill::<T, _, N>(hv::raw_of_table(&mut t), Spec { items, deleted, kind, h, distinct: false, id_is_slot: false, layout: None, concrete_tags: None });
     (t, st)
 }
 
@@ -323,7 +323,7 @@ pub fn mk_table_layout<const N: usize>(full: u64, del: u64, h: &[u64; K]) -> (Ha
     let mut t: HashTable<T> = HashTable::with_capacity(capreq(N));
     let items = full.count_ones() as usize;
     let deleted = del.count_ones() as usize;
-    let st = fill::<T, _, N>(hv::raw_of_table(&mut t), Spec { items, deleted, kind: InvKind::Full, h, distinct: false, id_is_slot: false, layout: Some((full, del)) });
+    let st = fill::<T, _, N>(hv::raw_of_table(&mut t), Spec { items, deleted, kind: InvKind::Full, h, distinct: false, id_is_slot: false, layout: Some((full, del)), concrete_tags: None });
     (t, st)
 }
 
@@ -342,6 +342,49 @@ pub fn rehash_layout<const N: usize>(full: u64, del: u64) {
     assert!(post_mult::<N, N>(&t, &h, q, qa, false) == st.mult2(q, qa));
     // all tombstones reclaimed
     let post = snap::<T, _, N>(hv::raw_of_table_ref(&t));
+    assert!(post.count(DELETED) == 0);
+    assert!(post.growth_left == real_capacity(N) - items);
+    core::mem::forget(t);
+}
+
+/// As `rehash_layout`, with concrete ids and tags (mode `tm`), symbolic position bits.
+pub fn rehash_layout_ct<const N: usize>(full: u64, del: u64, tm: u8) {
+    let h = hashes_with_tags(tm);
+    let mut t: HashTable<T> = HashTable::with_capacity(capreq(N));
+    let items = full.count_ones() as usize;
+    let deleted = del.count_ones() as usize;
+    let st = fill::<T, _, N>(hv::raw_of_table(&mut t), Spec { items, deleted, kind: InvKind::Full, h: &h, distinct: false, id_is_slot: false, layout: Some((full, del)), concrete_tags: Some(tm) });
+    assert!(st.growth_left == 0);
+    t.reserve(1, |v| h[v.id() as usize]);
+    assert!(t.len() == items);
+    assert!(t.capacity() >= items + 1);
+    let q = any_id();
+    let qa: u8 = any();
+    assert!(post_mult::<N, N>(&t, &h, q, qa, false) == st.mult2(q, qa));
+    let post = snap::<T, _, N>(hv::raw_of_table_ref(&t));
+    assert!(post.count(DELETED) == 0);
+    assert!(post.growth_left == real_capacity(N) - items);
+    core::mem::forget(t);
+}
+
+/// `rehash_layout_ct` with one-byte elements: the whole 16-bucket table is a 40-byte block, small
+/// enough for CBMC to track every control byte individually.
+pub fn rehash_layout_ct8<const N: usize>(full: u64, del: u64, tm: u8) {
+    let h = hashes_with_tags(tm);
+    let mut t: HashTable<u8> = HashTable::with_capacity(capreq(N));
+    let items = full.count_ones() as usize;
+    let deleted = del.count_ones() as usize;
+    let st = fill::<u8, _, N>(hv::raw_of_table(&mut t), Spec { items, deleted, kind: InvKind::Full, h: &h, distinct: false, id_is_slot: false, layout: Some((full, del)), concrete_tags: Some(tm) });
+    assert!(st.growth_left == 0);
+    t.reserve(1, |v| h[*v as usize]);
+    assert!(t.len() == items);
+    assert!(t.capacity() >= items + 1);
+    let raw = hv::raw_of_table_ref(&t);
+    assert!(buckets_of(raw) == N);
+    let post = snap::<u8, _, N>(raw);
+    assert!(inv::<N>(&post, InvKind::Full, &h, false, false));
+    let q = any_id();
+    assert!(post.mult(q) == st.mult(q));
     assert!(post.count(DELETED) == 0);
     assert!(post.growth_left == real_capacity(N) - items);
     core::mem::forget(t);
